@@ -210,19 +210,22 @@ func head(b []byte) []byte {
 	return b
 }
 
-var mitmKinds = []string{"flip", "drop", "dup", "swap", "truncate", "replay", "inject"}
+var mitmKinds = []string{"flip", "drop", "dup", "swap", "truncate", "replay", "inject", "cross"}
 
 // mitmAct performs one tape-chosen edit on link l; returns its kind or "".
 func (w *world) mitmAct(l *link) string {
 	un := l.untouched()
-	wt := []int{4, 2, 2, 2, 2, 2, 1}
+	wt := []int{4, 2, 2, 2, 2, 2, 1, 1}
 	if len(un) == 0 {
-		wt = []int{0, 0, 0, 0, 0, 2, 1}
+		wt = []int{0, 0, 0, 0, 0, 2, 1, 1}
 	} else if len(un) < 2 {
 		wt[3] = 0
 	}
 	if len(l.origRecs) == 0 {
 		wt[5] = 0
+	}
+	if l.reverse == nil || len(l.reverse.origRecs) == 0 {
+		wt[7] = 0
 	}
 	kind := mitmKinds[w.tape.Weighted(wt...)]
 	switch kind {
@@ -287,6 +290,14 @@ func (w *world) mitmAct(l *link) string {
 		}
 		l.mitmReplay(pos, o)
 		w.step("mitm %s replay rec#%d at q[%d]", l.name, o, pos)
+	case "cross": // a frame of the opposite direction is reflected into this one
+		o := w.tape.Draw(len(l.reverse.origRecs))
+		pos := len(l.q)
+		if len(un) > 0 && w.tape.Chance(1, 2) {
+			pos = un[w.tape.Draw(len(un))]
+		}
+		l.mitmInject(pos, l.reverse.origRecs[o])
+		w.step("mitm %s reflect rec#%d of %s at q[%d]", l.name, o, l.reverse.name, pos)
 	case "inject":
 		_, sealed := l.geometry()
 		n := sealed
